@@ -12,6 +12,10 @@ the real crate by the `enc`/`dec` requests of the correspondence run and are sat
 namespace Sourmash.C09
 open RevIdx RevIdx.Datasets
 
+/-- the two roaring assumptions are satisfiable (a transparent length-prefixed codec meets them), so no
+theorem below is vacuous in `c.Lawful` -/
+theorem assumptions_satisfiable : listCodec.Lawful := listCodec_lawful
+
 /-! ### T-datasets_wf — `Many` always holds ≥ 2 ids, so the length-discriminated codec decodes what was encoded -/
 
 /-- T-datasets_wf (constructor): `Datasets::new` yields a well-formed value whenever it does not panic -/
@@ -182,6 +186,12 @@ theorem extend_is_reference {c : ManyCodec} (hc : c.Lawful) (C₁ C₂ : Coll) (
       (∀ h, lookupIds c (db.hashes h) = refIds (C₁ ++ C₂) h) ∧
       lookupIds c db.processed = List.range (C₁ ++ C₂).length :=
   update_after_create hc C₁ C₂ hn old ext hold ch₁ ch₂ g₁ g₂ hg₁ hg₂
+
+example :
+    (updateDb listCodec (createDb listCodec [[5, 7]] [0] (chunkGrouping 1 0 false)) [10] [10, 11, 12]
+        [[5, 7], [7], [5]] [1, 0, 1] (chunkGrouping 2 2 true)).map (fun db =>
+      (lookupIds listCodec (db.hashes 5), lookupIds listCodec (db.hashes 7), lookupIds listCodec db.processed))
+    = some ([0, 2], [0, 1], [0, 1, 2]) := by decide
 
 /-- … i.e. it is indistinguishable from an index created from scratch over the larger collection -/
 theorem extend_eq_create {c : ManyCodec} (hc : c.Lawful) (C₁ C₂ : Coll) (hn : (C₁ ++ C₂).length ≤ 2 ^ 32)
